@@ -30,6 +30,7 @@ FILE_TESTS = {'std::path::Path::is_dir': False, 'std::path::Path::is_file': True
 
 def run(ctx, rep):
     prog, sl = ctx.prog, ctx.slicer
+    L.resolve_roles(prog, sl)
     rep.rule('R1', 'scope -> directory table: writer = reader = spec; nested scope directories are skipped by the per-file reader')
     rep.rule('R2', 'behaviour <-> suffix table: writer = reader^-1 = spec; no extension => Override; unknown => ignored')
     rep.rule('R3', 'stale files: directory removed before (re)creation, unconditionally for all base scopes, launch before process dirs')
